@@ -64,3 +64,15 @@ Theorem C05_window_bounds_required : forall cfg now a w,
     parse_rfc3339 (c_not_before c) <> None /\ parse_rfc3339 (c_not_on_or_after c) <> None.
 Proof. exact window_bounds_required. Qed.
 Print Assumptions C05_window_bounds_required.
+
+(* ---- tie to the source text (GenFuncs.v is re-translated from /repo's validate.go on every run) ---- *)
+From V Require Import GenPrelude GenFuncs P_GenFuncs.
+Theorem C05_source_Validate_is_the_model : forall cfg now r,
+  G_Validate cfg now r = PVal (validate cfg now r).
+Proof. exact G_Validate_eq. Qed.
+Print Assumptions C05_source_Validate_is_the_model.
+
+Theorem C05_source_VerifyAssertionConditions_is_the_model : forall cfg now a,
+  G_VerifyAssertionConditions cfg now a = PVal (verify_conditions cfg now a).
+Proof. exact G_VerifyAssertionConditions_eq. Qed.
+Print Assumptions C05_source_VerifyAssertionConditions_is_the_model.
